@@ -1338,7 +1338,7 @@ def run(ctx, replay=None):
     unit_cases2(ctx, replay)
     unit_cases3(ctx, replay)
     if replay is None:
-        n_each = ctx.n(90, 700)
+        n_each = ctx.n(70, 700)
         specs = [(gen_pair_spec(rng, kind), None) for kind in KINDS for _ in range(n_each)]
     elif replay.get("kind") == "pair":
         specs = [(replay["spec"], replay.get("overrides"))]
